@@ -1,12 +1,10 @@
 CONSTANTS
-  MaxN = 3
-  Ages = {17, 24, 25, 40}
+  MaxN = 5
+  Ages = {10, 17, 24, 25, 40, 70}
   NHH = 2
   Family = TRUE
   Marriage = TRUE
 SPECIFICATION Spec
 INVARIANT InvNesting
-INVARIANT InvBgInWthh
-INVARIANT InvTwoGenerations
 INVARIANT InvPointers
 CHECK_DEADLOCK FALSE
